@@ -99,6 +99,9 @@ func main() {
 	case "elide":
 		mainElide(*seed, *n)
 		return
+	case "top4g": // accesses at the top of a 4 GiB memory, interpreter (top4g.go)
+		mainTop4g(*seed)
+		return
 	case "enc": // operand encoding: the real encodeEncMem / encodeEncEnc / Encode (enc.go)
 		mainEnc(*seed, *n, *nseq)
 		return
